@@ -41,19 +41,27 @@ def demo_result(wt):
 
 
 def run_checks(patch):
-    """Apply the patch to /repo, run every registered quick check, undo."""
+    """Apply the patch to a scratch worktree of /repo HEAD, run every registered quick check against it (VERIF_REPO),
+    remove the worktree.  /repo itself and the committed evidence are left alone, so evaluations can run while the
+    checks are being worked on."""
     fired = {}
-    rc, out = sh("git -C /repo status --porcelain")
-    assert out.strip() == "", "/repo is not clean: " + out
-    rc, out = sh("git -C /repo apply %s" % patch)
+    wt = tempfile.mkdtemp(prefix="seedrun-")
+    os.rmdir(wt)
+    ev = tempfile.mkdtemp(prefix="seedev-")
+    sh("git -C /repo worktree add -q --detach %s HEAD" % wt)
     try:
+        rc, out = sh("git apply %s" % os.path.abspath(patch), cwd=wt)
+        assert rc == 0, out
+        env = dict(os.environ, VERIF_REPO=wt, VERIF_EVIDENCE_DIR=ev)
         m = json.load(open(os.path.join(VERIF, "MANIFEST.json")))
         for c in m["checks"]:
-            rc, out = sh(c["quick_cmd"], cwd=VERIF)
+            rc, out = sh(c["quick_cmd"], cwd=VERIF, env=env)
             if rc != 0:
                 fired[c["property_id"]] = [l.strip()[:300] for l in out.splitlines() if "VIOLATION" not in l and l.strip()][:6]
     finally:
-        sh("git -C /repo checkout -- .")
+        sh("git -C /repo worktree remove --force %s" % wt)
+        shutil.rmtree(wt, ignore_errors=True)
+        shutil.rmtree(ev, ignore_errors=True)
     return fired
 
 
